@@ -551,7 +551,7 @@ class OhdrV1(OhdrV2):
     def encok_expr(self, x):
         return None
     def wf_expr(self, x):
-        return None
+        return "wf_ohdr_v1 " + self.coq(x)
     def proj(self, x):
         cur = x["_sb"]["addr"] + 16
         ms, name = [], ""
